@@ -17,7 +17,7 @@ ASSUMPTIONS = [
     "geometry (m, k) is recomputed from the footer by the documented sizing formula (C07), little-endian host",
 ]
 BOUNDS = {
-    "quick": "Bloom 2, 11, 13 bits; counting Bloom 2, 3, 6 cells; count-min 2x2, 3x2 (min, mean, mean-min) and 1x1 (min, mean); expanding/rotating 1..3 sub-filters; cuckoo / counting cuckoo 2x1, 2x2, 3x1 every occupancy",
+    "quick": "Bloom 2, 8, 11, 13, 16 bits; counting Bloom 2, 3, 6 cells; count-min 2x2, 3x2 (min, mean, mean-min) and 1x1 (min, mean); expanding/rotating 1..3 sub-filters; cuckoo / counting cuckoo 2x1, 2x2, 3x1 every occupancy",
     "thorough": "adds Bloom 63 bits, count-min 3x3",
     "outside": "compiling and running an actual C reader (the reference is the SMT specification); export_c_header text; big-endian hosts",
 }
@@ -182,7 +182,7 @@ def jobs(tier):
     js = []
     o = {"witnesses": 1}
     oc = {"index_concretize_limit": 8, "witnesses": 1}
-    for est, fpr in [(1, .5), (3, .2), (5, .3)] + ([(10, .05)] if tier == "thorough" else []):
+    for est, fpr in [(1, .5), (3, .28), (3, .2), (5, .3), (5, .22)] + ([(10, .05)] if tier == "thorough" else []):
         js.append({"h": "c06.bloom", "cfg": {"est": est, "fpr": fpr}, "opts": dict(o, cost=est)})
     for est, fpr in [(1, .5), (1, .3), (2, .3)]:
         js.append({"h": "c06.cbf", "cfg": {"est": est, "fpr": fpr}, "opts": dict(o, cost=est * 5)})
